@@ -183,6 +183,13 @@ type Node struct {
 
 // NewNodeOn assembles a node over an existing database (restart) or a fresh one.
 func NewNodeOn(db youdb.Database, g *core.Genesis, eng consensus.Engine) (*Node, error) {
+	return NewNodeOnOpt(db, g, eng, true)
+}
+
+// NewNodeOnOpt: withStaking=false leaves the staking module unregistered (the bare core processor,
+// as the repository's own core tests run it): blocks then carry no module receipt, an empty block
+// has no receipt at all.
+func NewNodeOnOpt(db youdb.Database, g *core.Genesis, eng consensus.Engine, withStaking bool) (*Node, error) {
 	Init()
 	if _, err := core.SetupGenesisBlock(db, NetworkID, g); err != nil {
 		return nil, fmt.Errorf("SetupGenesisBlock: %v", err)
@@ -191,6 +198,9 @@ func NewNodeOn(db youdb.Database, g *core.Genesis, eng consensus.Engine) (*Node,
 	chain, err := core.NewBlockChain(db, eng, mux, params.ArchiveNode, local.FakeDetailDB())
 	if err != nil {
 		return nil, fmt.Errorf("NewBlockChain: %v", err)
+	}
+	if !withStaking {
+		return &Node{DB: db, Chain: chain, Mux: mux, Engine: eng}, nil
 	}
 	s := staking.NewStaking(mux)
 	s.Register(chain.Processor())
@@ -205,7 +215,9 @@ func NewNode(g *core.Genesis, eng consensus.Engine) (*Node, error) {
 }
 
 func (n *Node) Stop() {
-	n.Staking.Stop()
+	if n.Staking != nil {
+		n.Staking.Stop()
+	}
 	n.Chain.Stop()
 	n.Mux.Stop()
 }
